@@ -7,9 +7,12 @@ from mon.oracle.serializer import serialize, expected_records
 from mon.props import common
 
 LEVEL = 'exploration'
-RULE = ('catalogue-exhaustive: every text codec of the catalogue (UTF-8 / '
+RULE = ('catalogue-exhaustive (thorough; quick samples 16 spellings of the '
+        'non-BOM codecs): every text codec of the catalogue (UTF-8 / '
         '-sig, UTF-16/32 with BOM / LE / BE, Latin, Windows, EBCDIC, CJK '
-        'multibyte; kept only if it passes a statelessness probe) x every '
+        'multibyte and every other codec the interpreter registers an alias '
+        'for; kept only if it passes a statelessness probe incl. non-ASCII '
+        'characters) x every '
         'spelling Python resolves to it (registered aliases, case and '
         'hyphen / underscore variants; must match the option-value grammar '
         'and not be numeric) x {unix, dos}: (1) get_newline_for_type and '
@@ -168,8 +171,15 @@ def run(ctx):
     rng = ctx.rng
     cat = codecs_cat.catalogue()
     items = []
+    import random as _random
+    pick = _random.Random(ctx.seed)      # same sample in every shard
     for canon in sorted(cat):
-        for sp in codecs_cat.spellings(canon):
+        sps = codecs_cat.spellings(canon)
+        if ctx.quick and not ''.encode(canon) and len(sps) > 16:
+            # quick tier: all spellings of the BOM-emitting codecs, the
+            # canonical name + 15 sampled spellings of every other codec
+            sps = sps[:1] + pick.sample(sps[1:], 15)
+        for sp in sps:
             items.append((canon, sp))
     if ctx.index == 0:
         obs.count('codecs', len(cat))
